@@ -86,7 +86,9 @@ package gen
 //@ loop (*ParquetWriter).Write#2
 //@   modifies p.meta, HA(p.meta.rowGroups), heap("sch.ColumnMetaData"), heap("map[string]sch.ColumnChunk"), wfault, snkPos, relArr
 //@   invariant metaOK(p.meta) && (wfault ==> old(wfault)) && p.meta.rowGroups == old(p.meta.rowGroups) && 0 <= rangeindex$1 + 1
-//@   invariant[C06] old(#p.meta.rowGroups) >= 1 ==> p.meta.rowGroupDocs == old(p.meta.rowGroupDocs) && p.meta.docs == old(p.meta.docs) && closedSame(p.meta) && lastRows(p.meta) == p.meta.rowGroupDocs
+//@   invariant[C06] old(#p.meta.rowGroups) >= 1 ==> p.meta.rowGroupDocs == old(p.meta.rowGroupDocs) && p.meta.docs == old(p.meta.docs)
+//@   invariant[C06] old(#p.meta.rowGroups) >= 1 ==> closedSame(p.meta)
+//@   invariant[C06] old(#p.meta.rowGroups) >= 1 ==> lastRows(p.meta) == p.meta.rowGroupDocs
 //@ loop (*ParquetWriter).Write#3
 //@   modifies HA(schema)
 //@   invariant freshsince(schema) && metaOK(p.meta) && (wfault ==> old(wfault)) && #schema == #p.fields
